@@ -353,6 +353,15 @@ def c11_oracle(script, result):
                 return ("C11:store-add:notifications", "successful add on a stored track emitted %d notifications" % st["n"], i)
         elif k in ("MO", "ME", "MN") and st["r"][0] != 8:
             n_merge = st["n"] - st.get("nb", 0)
+            d0 = raw[i].get("direct")
+            # the merge really failed when the destination / source is missing, both are the same track, or
+            # Track::merge on the very same tracks fails - whatever the store then reports
+            really_failed = (op[1] not in prev or (k == "MO" and op[2] not in prev) or op[1] == op[2]
+                             or (d0 is not None and d0["r"][0] != 0))
+            if really_failed and ok and cur != prev:
+                return ("C11:%s:not-restored" % ("merge_owned" if k == "MO" else "merge_external"),
+                        "a merge that failed (reported as success) did not leave the stored tracks as they were: before ids %r after ids %r"
+                        % (sorted(prev), sorted(cur)), i)
             if not ok:
                 if cur != prev:
                     what = "a failed owned merge did not leave both tracks stored and unchanged" if k == "MO" else "a failed merge changed the store"
